@@ -2,6 +2,7 @@
 from contracts import c15_dictlist, misc_small, c02_xref, c02_rename, c02_boundary  # noqa
 from contracts import c02_update_genes as U
 from contracts import c02_add_metabolites as AM
+from contracts import c02_remove_reactions as RR
 from props._generic import run_property, replay_with_driver
 
 LEVEL = "other"
@@ -18,10 +19,12 @@ BOUNDARY_KEYS = ["Model.add_boundary"]
 # Reaction.update_genes_from_gpr needs its own hook table (the materialised reaction's heap-resident gene set, the ghost undo trace)
 KEYS_UG = ["Reaction.update_genes_from_gpr"]
 KEYS_AM = ["Model.add_metabolites"]
+KEYS_RR = ["Model.remove_reactions"]
 
 
 def run(rep):
-    run_property(rep, KEYS, more=[(RENAME_KEYS, c02_rename.HOOKS), (BOUNDARY_KEYS, c02_boundary.HOOKS), (KEYS_UG, U.HOOKS), (KEYS_AM, AM.HOOKS)],
+    run_property(rep, KEYS, more=[(RENAME_KEYS, c02_rename.HOOKS), (BOUNDARY_KEYS, c02_boundary.HOOKS), (KEYS_UG, U.HOOKS), (KEYS_AM, AM.HOOKS),
+                                   (KEYS_RR, RR.HOOKS)],
                  lemmas=U.lemmas, explanation=(
         "Deductive part: the clauses `identifiers are unique` and `every listed object is the one found by looking up its "
         "identifier` hold because every model edit changes model.reactions/metabolites/genes/groups only through the DictList "
@@ -79,9 +82,21 @@ def run(rep):
         "f52a176), no other model pointer or reaction set changes; the mass-balance constraints handed to add_cons_vars in one call "
         "are Constraint(Zero, name=<id>, lb=0, ub=0), one for every joining metabolite whose identifier names no constraint yet and "
         "nothing else; an empty argument changes nothing, an empty identifier raises ValueError before anything is changed. "
+        "Model.remove_reactions (no context open, a list of pairwise different members of the model, remove_orphans False and True) "
+        "is proved for lists and models of any size: model.reactions afterwards is its entry content minus the listed reactions, "
+        "the others in their order, well formed again; every listed reaction has no model pointer; per listed reaction, in list "
+        "order, exactly one objective.set_linear_coefficients({forward: 0, reverse: 0}) and then one remove_cons_vars([forward, "
+        "reverse]) (ghost trace with a clock: zeroed BEFORE removed, the repair 970afa3); afterwards no metabolite, gene or group "
+        "of the model refers to a listed reaction, and the only back-references / memberships that changed are those; with "
+        "remove_orphans: Model.remove_metabolites is called on exactly the metabolites that list no reaction any more, exactly the "
+        "genes that list no reaction any more leave model.genes (well formed again) and the groups; without: model.genes and all "
+        "other pointers untouched. Stated preconditions there: items are members, pairwise different (an item not in the model or "
+        "listed twice only produces a warning: not covered); Model.remove_metabolites(one reaction-less metabolite) is an abstract "
+        "call assumed to clear its model pointer and its group memberships. Observation visible in that contract (not demanded by "
+        "the property text, hence not a finding): an orphaned gene removed from model.genes keeps its _model pointer. "
         "The documented effect of each other public "
         "editing operation on stoichiometry, gene sets, back-references and groups (add_reactions re-pointing, Reaction.add_metabolites "
-        "combine/replace, remove_* with orphans, remove_genes/rename_genes, merge), the parsing of the rule text and what the "
+        "combine/replace, remove_genes/rename_genes, merge), the parsing of the rule text and what the "
         "registered undo functions do when they run are NOT "
         "proved - those functions mix sympy/optlang calls, string parsing and nested loops outside the supported subset: bounded "
         "driver (histories compared step by step with an executable reference description + Inv_XRef after every step)."),
@@ -93,7 +108,10 @@ def run(rep):
                  "GPR.genes returns the gene names of the rule tree (ghost rule_names; assumed contract)",
                  "Gene(id) allocates a new object referenced by nothing that exists (assumed allocation contract)",
                  "get_context by its contract proved under C03; set semantics (copy, add, difference, iteration in any order) as "
-                 "axiomatised", "Model.add_cons_vars as a recorded call; optlang Constraint constructor uninterpreted"])
+                 "axiomatised", "Model.add_cons_vars as a recorded call; optlang Constraint constructor uninterpreted",
+                 "remove_reactions: objective.set_linear_coefficients / Model.remove_cons_vars recorded, not executed; "
+                 "Model.remove_metabolites(one reaction-less metabolite) abstract with an assumed effect (model pointer None, removed "
+                 "from the model's groups, nothing else in view); len(set) == 0 iff the set is empty"])
 
 
 def replay(payload):
